@@ -72,6 +72,25 @@ pub fn run_exit_contract(
     let shown0 = shown_errors(&r0);
     let fatal0 = fatal_reported(&r0);
     let n = exit_code;
+    // The reader visits every RDH of the chain whatever the mode and the filter: where the chain walk of the input
+    // arrives at an offset-to-next outside the accepted range (and every packet before it has memory size ==
+    // offset, so that the tool's reading and the walk agree), the fatal input error must be reported
+    let chain_breaks_at: Option<usize> = {
+        let w = itsgen::walker::walk(&specs[0].input);
+        match w.end {
+            itsgen::walker::WalkEnd::BadOffset(p) if p > 0 && w.pkts.iter().all(|k| k.rdh.memory_size == k.rdh.offset_next) => Some(p),
+            _ => None,
+        }
+    };
+    if let Some(p) = chain_breaks_at {
+        if !fatal0 && !init_failed(&r0) && !specs[0].argv.iter().any(|a| a.contains("does-not-exist")) {
+            out.fail = fail(
+                "fatal-not-reported",
+                format!("the RDH at {p:#X} has an offset-to-next outside the accepted range: no fatal input error is reported [cmd: {}]", specs[0].cmdline()),
+            );
+            return out;
+        }
+    }
     let cmd0 = specs[0].cmdline();
     // --- exit status table
     // a corruption that hit the very first RDH0 makes the input unrecognisable
@@ -152,6 +171,15 @@ pub fn run_exit_contract(
         } else if kind == "other-mode" {
             // view / filtered writing on the same input: a reported fatal gives N (0 or 1 without -E)
             let fatal = fatal_reported(&r);
+            if let Some(p) = chain_breaks_at {
+                if !fatal && !init_failed(&r) {
+                    out.fail = fail(
+                        "fatal-not-reported-other-mode",
+                        format!("the RDH at {p:#X} has an offset-to-next outside the accepted range: no fatal input error is reported [cmd: {cmd}]"),
+                    );
+                    return out;
+                }
+            }
             let want: Vec<i32> = if init_failed(&r) {
                 (1..=255).collect()
             } else if fatal {
